@@ -21,6 +21,7 @@ func checkC08(c *Ctx) {
 	p := c.P
 	checkC08ClauseConfig(c)
 	checkC08JoinFilterGroup(c)
+	checkC08AssocUnscoped(c)
 	// the soft-delete filter is ANDed next to the user's units: whether a raw unit is grouped first is decided by the
 	// parenthesisation decisions of package clause (same rule as C02.siblings)
 	checkParenDecisions(c, c.Rule("C08.raw-grouping", "raw units containing AND/OR (in any letter case, ? or named arguments) are parenthesised before the soft-delete filter is ANDed on", 4))
